@@ -114,16 +114,31 @@ fn primitives(ctx: &mut Ctx, rng: &mut Rng, x: &[u8]) {
             calls += 1;
             let before = ds.offset;
             match kind {
-                0 => {
-                    if ds.set_offset(arg).is_err() && ds.offset != before {
-                        bad = Some(format!("failed set_offset({}) moved the cursor", arg));
+                0 => match ds.set_offset(arg) {
+                    Err(_) => {
+                        if ds.offset != before {
+                            bad = Some(format!("failed set_offset({}) moved the cursor", arg));
+                        }
                     }
-                }
-                1 => {
-                    if ds.increment_offset(arg).is_err() && ds.offset != before {
-                        bad = Some(format!("failed increment_offset({}) moved the cursor", arg));
+                    Ok(_) => {
+                        if ds.offset != arg {
+                            bad = Some(format!("set_offset({}) left the cursor at {}", arg, ds.offset));
+                        }
                     }
-                }
+                },
+                1 => match ds.increment_offset(arg) {
+                    Err(_) => {
+                        if ds.offset != before {
+                            bad = Some(format!("failed increment_offset({}) moved the cursor", arg));
+                        }
+                    }
+                    Ok(_) => {
+                        // an accepted increment moves the cursor forward by exactly that much
+                        if before.checked_add(arg) != Some(ds.offset) {
+                            bad = Some(format!("increment_offset({}) from {} left the cursor at {}", arg, before, ds.offset));
+                        }
+                    }
+                },
                 2 => {
                     let _ = ds.rr_rdlen();
                 }
